@@ -193,6 +193,24 @@ def split_block_heads(lines, counts):
     return out
 
 
+_WCAP = re.compile(r'^(\s*)let mut (\w+) = Vec::with_capacity\((.+)\);$')
+
+
+def name_capacity_args(lines, counts):
+    """T18: `let mut v = Vec::with_capacity(EXPR);` -> `let v_capacity_arg = EXPR; let mut v = Vec::with_capacity(v_capacity_arg);`
+    so that a contract can speak about the amount of memory the code asks for (C19)."""
+    out = []
+    for txt, no in lines:
+        mo = _WCAP.match(txt)
+        if mo and not txt.lstrip().startswith('//'):
+            counts.bump('T18_capacity_arg_named')
+            out.append(('%slet %s_capacity_arg = %s;' % (mo.group(1), mo.group(2), mo.group(3)), no))
+            out.append(('%slet mut %s = Vec::with_capacity(%s_capacity_arg);' % (mo.group(1), mo.group(2), mo.group(2)), no))
+        else:
+            out.append((txt, no))
+    return out
+
+
 def widen_visibility(lines, counts):
     """T15: pub(super) -> pub, private struct fields -> pub (visibility has no effect on what is proved; lets contracts
     name the fields, and keeps Verus from treating the struct as opaque in the contracts of public functions)."""
@@ -203,6 +221,10 @@ def widen_visibility(lines, counts):
             counts.bump('T15_pub_super', txt.count('pub(super)'))
             txt = txt.replace('pub(super)', 'pub')
         s = txt.strip()
+        if re.match(r'^struct \w+', txt):
+            counts.bump('T15_private_struct')
+            txt = 'pub ' + txt
+            s = txt.strip()
         if re.match(r'^(pub )?struct \w+.*\{$', s):
             in_struct = True
         elif in_struct and s.startswith('}'):
@@ -253,6 +275,7 @@ def transform(text, counts, select=None):
     lines = rewrite_asserts(lines, counts)
     lines = rewrite_unchecked(lines, counts)
     lines = split_block_heads(lines, counts)
+    lines = name_capacity_args(lines, counts)
     lines = widen_visibility(lines, counts)
     # `pub mod x;` / `mod x;` declarations: the module tree is spelled out by the overlay
     out = []
@@ -269,7 +292,7 @@ def transform(text, counts, select=None):
 # --------------------------------------------------------------------------------------------
 
 class OLine:
-    __slots__ = ('text', 'ono', 'kind', 'base', 'extra', 'bidx')
+    __slots__ = ('text', 'ono', 'kind', 'base', 'extra', 'bidx', 'after')
 
     def __init__(self, text, ono):
         self.text = text      # text as written in the overlay (markers removed)
@@ -278,6 +301,7 @@ class OLine:
         self.base = None      # canonical base-form text this line stands for (None: unknown yet)
         self.extra = None
         self.bidx = None      # index of the matched base line
+        self.after = None
 
 
 _RET = re.compile(r'^(.*-> )\((\w+): (.*)\)$')
@@ -312,14 +336,25 @@ def parse_region(raw_lines, first_ono):
             while j < n and not raw_lines[j].rstrip().endswith('//@arm-body'):
                 ann.append(raw_lines[j].rstrip())
                 j += 1
-            if j >= n or j + 1 >= n or not raw_lines[j + 1].rstrip().endswith('//@arm-close'):
-                raise SystemExit('overlay line %d: //@arm without //@arm-body / //@arm-close' % ono)
+            if j >= n:
+                raise SystemExit('overlay line %d: //@arm without //@arm-body' % ono)
             body = raw_lines[j].rstrip()[:-len('//@arm-body')].strip()
-            comma = ',' if raw_lines[j + 1].strip().startswith('},') else ''
+            k = j + 1
+            after = []
+            while k < n and not raw_lines[k].rstrip().endswith('//@arm-close'):
+                after.append(raw_lines[k].rstrip())
+                k += 1
+            if k >= n:
+                raise SystemExit('overlay line %d: //@arm without //@arm-close' % ono)
+            if after and body.endswith(';'):
+                body = body[:-1]
+            comma = ',' if raw_lines[k].strip().startswith('},') else ''
             ol = OLine(head, ono)
             ol.kind = 'arm'
             ol.base = '%s%s => %s%s' % (mo.group(1), mo.group(2), body, comma)
             ol.extra = ann
+            ol.after = after
+            j = k - 1
             out.append(ol)
             i = j + 2
             continue
@@ -444,8 +479,12 @@ def derive(ol, cur_text, unchanged, lost):
         mo = _ARM.match(cur_text)
         if mo:
             ind = mo.group(1)
+            after = list(ol.after or [])
+            body = mo.group(3)
+            if after and not body.rstrip().endswith((';', '}')):
+                body = body + ';'
             return (['%s%s => {' % (ind, mo.group(2))] + list(ol.extra) +
-                    ['%s    %s' % (ind, mo.group(3)), '%s}%s' % (ind, mo.group(4))])
+                    ['%s    %s' % (ind, body)] + after + ['%s}%s' % (ind, mo.group(4))])
         lost.append(('arm', ol.ono))
         return [cur_text]
     raise AssertionError(k)
@@ -512,7 +551,7 @@ def merge(olines, base, cur, relpath, overlay_name):
         ctext = cur[c][0]
         for k, t in enumerate(derive(ol, ctext, tag == 'eq', lost)):
             out.append(t)
-            if ol.kind == 'arm' and 0 < k <= len(ol.extra or []):
+            if ol.kind == 'arm' and (0 < k <= len(ol.extra or []) or len(ol.extra or []) + 1 < k <= len(ol.extra or []) + 1 + len(ol.after or [])):
                 origin.append(('A', overlay_name, ol.ono + k))
             else:
                 origin.append(('C', relpath, cur[c][1]))
